@@ -23,7 +23,8 @@ from harness.common import Ctx
 from harness.translate import crash_progs
 from harness.vclock import VirtualClock
 
-GENERATED = [("harness.translate.crash_progs", "translate", "gen/CrashProgs_gen.v")]
+GENERATED = [("harness.translate.crash_progs", "translate", "gen/CrashProgs_gen.v"),
+             ("harness.translate.pool_loops", "translate_ids", "gen/PoolIds_gen.v")]
 MANIFEST = {
     "technique": "Coq proof by verified finite-state closure and co-reachability of the per-invocation crash machine built from generated effect sequences; crash injection after every backend effect of every real actor role, then real recovery tasks and surviving runners in virtual time",
     "text": "Theorems (Props/C03.v) about the crash machine instantiated with the effect sequences regenerated from "
@@ -418,6 +419,8 @@ def main(ctx: Ctx) -> int:
     world.quiet()
     info = ctx.translate("crash_progs", crash_progs.translate, "gen/CrashProgs_gen.v")
     ctx.notes["effect_sequences"] = {k: v for k, v in info.items() if k not in ("degraded", "differs_from_default")}
+    from harness.translate import pool_loops
+    ctx.translate("pool_ids", pool_loops.translate_ids, "gen/PoolIds_gen.v")
     ctx.prove("Props/C03.v", timeout=1500)
     S.SQL_YIELD = False
     scratch = world.scratch_dir()
